@@ -1,10 +1,17 @@
 mod c05;
 mod c07;
+mod c08;
+mod c09;
+mod dbg;
 mod hist;
 
 use vkit::Property;
 
 fn main() {
+    if std::env::args().nth(1).as_deref() == Some("--debug") {
+        dbg::run();
+        return;
+    }
     vkit::main(vec![
     Property {
         id: "C05",
@@ -15,6 +22,28 @@ fn main() {
             "suffix-bundle export/import is not covered by this check yet",
         ],
         subs: c05::subs,
+        max_shards: 16,
+    },
+    Property {
+        id: "C08",
+        level: "exploration",
+        rule: "proptest. (1) identity: generated (kind, bytes, typed causal parents): ids equal across 4 routes, parent order and duplication; ids differ after changing kind, one byte, the length, or the parent set. (2) arrival order: 1-3 rounds of 1-6 submissions (default/named/exact routes, 3 kinds, AcceptAll / KindFilter / Budgeted{0..3} inboxes, 1-2 worldlines x 1-3 heads) each followed by a scheduler pass; the base run is checked against a reference inbox (pending set keyed by ingress id per resolved head; a pass admits everything, or the n smallest ids under a budget) for dispositions, committed heads, batch sizes and which intents were materialised; then every permutation of every round (exhaustive when the product of the rounds' permutation counts is <=120, e.g. one round of 5 or 4x3x2; plus 3 sampled orders with retries inserted at generated positions) must give identical dispositions for first arrivals, Duplicate for retries, identical StepRecords, pending counts, history lengths, full state fingerprints and provenance entries. (3) at-most-once: HistGen scripts of <=60 steps with retries while pending and after commit: no (head, ingress id) runs in more than one committed tick, a committed intent is never re-accepted on its head, and per head distinct-accepted == pending + sum of admitted batch sizes after every step. Non-trivial = >=3 submissions over >=2 heads / retries in both windows / a parent-set toggle.",
+        assumptions: &[
+            "submission_generation is arrival metadata and is not compared",
+            "after-restart retries are covered by C10 (not built yet); passes that fail are C09's subject and end the arrival-order comparison for that case",
+        ],
+        subs: c08::subs,
+        max_shards: 16,
+    },
+    Property {
+        id: "C09",
+        level: "fault_enumeration",
+        rule: "proptest: worlds of 1-3 worldlines x 1-4 heads; 0-2 honest warm-up passes (first / middle / later pass of a run); then a pass in which generated honest intents are pending on a generated subset of heads and ONE failing intent sits on a generated head, so that the failing commit falls at a generated position k of the n runnable heads; six failure kinds injected by program: executor panic, undeclared read, undeclared write (footprint violation payloads), cross-instance write, ops that fail to apply (delete of a missing edge, delete of a non-isolated node: typed engine error). Oracle: the pass fails (re-raised panic for unwinding executors, typed Err otherwise); every top-level field of the `{:#?}` rendering of WorldlineRuntime except the documented fault evidence (scheduler_faults, faulted_heads, runtime_fault, next_scheduler_fault_generation, runnable) and the whole ProvenanceService rendering are byte-identical to before the pass; inbox pending counts and full state fingerprints unchanged; exactly one fault record with the documented scope (typed engine error -> that head only, unwinding executor -> runtime); quarantine: a runtime fault refuses further passes, a head fault removes only that head from the runnable order while all other heads commit in the next pass, eligibility changes do not re-admit; resolve_scheduler_fault re-admits once and keeps the record; honest passes before and after obey: committed heads == runnable non-empty heads in canonical order, +1 worldline tick per committed head, +1 global tick; history stays replayable to the frontier. Non-trivial = failing head at position k>0.",
+        assumptions: &[
+            "fault scope follows the code's documented mapping (scheduler_fault_scope_for_error)",
+            "frontier tick overflow is not injected (no public way to register a frontier at MAX)",
+        ],
+        subs: c09::subs,
         max_shards: 16,
     },
     Property {
